@@ -353,6 +353,8 @@ class Check:
         self.tier = tier
         self.seed = seed
         self.t0 = time.time()
+        for old in glob.glob(os.path.join(VERIF, "replay", "%s-%d-*.json" % (pid, seed))):
+            os.remove(old)
         self.failures = []      # dicts: site, cls, what, case(replay content)
         self.obl_broken = []    # names of theorems / correspondences that no longer check
         self.cov = {"evaluations": 0, "distinct_nontrivial": 0, "rule": "", "samples": [],
